@@ -3,7 +3,9 @@ package c12
 // Totality for deeply nested queries.  Both parsers are recursive; a goroutine stack that
 // overflows is a fatal error no recover() can catch, so "returns an error or an AST" must hold
 // for nesting depths far beyond anything sensible as well: a query of a few megabytes passes
-// the proxy's and the store's message size limits.  Cases are journalled before they run (no
+// the proxy's and the store's message size limits (the store accepts messages up to 256 MB; a
+// frame of the NOT recursion is small, so it takes several million of them to exhaust the 1 GB
+// goroutine stack: the depths go up to 20 million, an 80 MB text).  Cases are journalled before they run (no
 // lazy journal): a dead test process is attributed to its case by the driver.
 
 import (
@@ -30,7 +32,7 @@ func genDeep(t *rapid.T) DeepCase {
 	w := rapid.SampledFrom([][2]string{{"(", ")"}, {"not ", ""}, {"NOT (", ")"}, {"( not ", ")"}, {"(", ""}, {"((", ")"}}).Draw(t, "wrap")
 	return DeepCase{
 		Open: w[0], Close: w[1],
-		N:     rapid.SampledFrom([]int{1, 30, 400, 999, 1000, 1001, 5000, 200_000, 1_500_000, 3_000_000}).Draw(t, "n"),
+		N:     rapid.SampledFrom([]int{1, 30, 400, 999, 1000, 1001, 5000, 200_000, 1_500_000, 3_000_000, 8_000_000, 20_000_000}).Draw(t, "n"),
 		Core:  rapid.SampledFrom([]string{"kw:a", "kw:a and tx:b", "*", "", "kw:in(a,b)"}).Draw(t, "core"),
 		Entry: rapid.SampledFrom([]string{"seqql", "legacy", "aggfilter"}).Draw(t, "entry"),
 		Map:   rapid.SampledFrom([]string{"full", "nil"}).Draw(t, "mapping"),
@@ -38,7 +40,7 @@ func genDeep(t *rapid.T) DeepCase {
 }
 
 func runDeep(c DeepCase) (res evid.Result, err error) {
-	if c.N < 0 || c.N > 4_000_000 {
+	if c.N < 0 || c.N > 25_000_000 {
 		return res, evid.Failf("bad_case", "n")
 	}
 	text := strings.Repeat(c.Open, c.N) + c.Core + strings.Repeat(c.Close, c.N)
